@@ -7,12 +7,19 @@ generic instantiations get distinct fullnames.  Model: `Impl/Derive.lean`; proof
 `definedNames S` (in `Lemmas/DeriveNames.lean`) is the `fq` of every record / enum / fixed node of
 `S`, in node order.  The main theorem is
 
-    schemaMut P hash fuel root = some S → NamesWf P hash → (definedNames S).Nodup
+    schemaMut P hash fuel root = some S →
+      NamesWfOn P hash (genericRecordKeys P hash fuel root) → (definedNames S).Nodup
 
-for EVERY root type (so `NamesWf` does not mention the root).  `NamesWf P hash` collects what the
-user of `#[derive(BuildSchema)]` is responsible for; every field except the two about `hash` is a
-decidable statement about the program text (see the non-vacuity example at the end, where they are
-discharged by `decide`).
+for EVERY root type.  `NamesWfOn P hash Ks` collects what the user of `#[derive(BuildSchema)]` is
+responsible for; every field is a decidable statement about the program text, except the two about
+`hash`, which ask `hash` to be injective and dot-free ON THE LIST `Ks` — here the finitely many
+lookup keys of generic records that the build registers (`genericRecordKeys`, computable: the keys
+of `already_built_types` of the final builder state whose head is a generic record).  For a
+concrete program, hash and root the whole hypothesis is decidable (see the non-vacuity examples at
+the end and `NonVacuityF.lean`, where it is discharged for the hash the test driver really runs
+the model with).  The earlier statement asked `hash` to be injective on ALL keys (`NamesWf`), which
+no hash with finitely many values (the crate's 64-bit SipHash, the driver's relabelling hash) can
+satisfy; it is kept as the corollary `C20_names_distinct_global`.
 
 How the proof goes (`Lemmas/DeriveNames.lean`): every named node has an *origin* — `[u8; N]` on
 its own, the record/enum registered under lookup key `k`, the node of a non-forwarding newtype
@@ -24,7 +31,9 @@ is built once; what is built for a key is its own origins, each once (field name
 identifiers are distinct), plus what newly registered keys own.  A duplicate built for a
 logical-type attribute (`build_duplicate`) is not registered; its top node is renamed to an origin
 of the enclosing type, and `dupSafe` says it owns nothing else.  Finally the name is an injective
-function of the origin (`NameInj`, derived from the conditions on the declared names).
+function of the origin, on the origins owned by registered keys (`NameInjOn`, derived from the
+conditions on the declared names; every comparison the proof makes is between origins whose owners
+are registered in some builder state of the run, and registrations are never removed).
 
 What `NamesWf` excludes, and why:
 * (necessary, witnesses `C20_owned_subnode_of_duplicated_record_collides`,
@@ -42,7 +51,8 @@ What `NamesWf` excludes, and why:
 * conditions on names: the hash-independent names (`staticNames`) are non-empty, do not start
   with `.`, are pairwise distinct across declarations (this contains "distinct declarations have
   distinct `typeName`"), do not start with `u8_array_`; the name of a generic record followed by
-  `_` is a prefix of no declared name and not of `u8_array_`; `hash` is injective and dot-free.
+  `_` is a prefix of no declared name and not of `u8_array_`; `hash` is injective and dot-free on
+  the generic-record keys the build registers.
 -/
 namespace Avro.Theorems
 open Avro Avro.Impl Avro.Impl.Derive
@@ -50,25 +60,57 @@ open DeriveNames
 
 /-! ## A. One definition per fullname -/
 
-/-- What the user of the derive macro is responsible for.  Fields (from `StructWf`, `TextWf`):
+/-- What the user of the derive macro is responsible for, with the conditions on `hash` asked on
+    the list `Ks` of lookup keys only.  Fields (from `StructWf`, `TextWfOn`):
 * `newtype_nongeneric`, `generic_union_safe`, `logical_dupSafe`, `field_names_nodup`,
   `variant_idents_nodup` — structure of the declarations;
 * `start_ok`, `distinct`, `no_u8_array`, `generic_prefix_free` — the declared names;
-* `hash_inj`, `hash_nodot` — the hash appended to the name of a generic record. -/
+* `hash_inj : ∀ k ∈ Ks, ∀ k' ∈ Ks, hash k = hash k' → k = k'`,
+  `hash_nodot : ∀ k ∈ Ks, '.' ∉ (hash k).toList` — the hash appended to the name of a generic
+  record.
+Every field is decidable for a concrete program, hash and list. -/
+structure NamesWfOn (P : Prog) (hash : Key → String) (Ks : List Key) : Prop
+    extends StructWf P, TextWfOn P hash Ks
+
+/-- The global form: `hash_inj`, `hash_nodot` about ALL keys.  Not satisfiable by a hash with
+    finitely many values (`NonVacuityF.lean`, `NVF20.namesWf_unmeetable_by_finite_hash`); satisfied
+    by `hashDemo`. -/
 structure NamesWf (P : Prog) (hash : Key → String) : Prop extends StructWf P, TextWf P hash
 
+theorem NamesWf.on {P : Prog} {hash : Key → String} (h : NamesWf P hash) (Ks : List Key) :
+    NamesWfOn P hash Ks :=
+  { toStructWf := h.toStructWf, toTextWfOn := h.toTextWf.on Ks }
+
 /-- **C20 (names).**  The schema derived for any root type of a well-formed program defines every
-    fullname once. -/
+    fullname once.  The hypothesis is about the program text and about `hash` on the finitely
+    many generic-record keys this build registers (`genericRecordKeys P hash fuel root`, a
+    computable list): decidable for a concrete program, hash, fuel and root. -/
 theorem C20_names_distinct (P : Prog) (hash : Key → String) (fuel : Nat) (root : Ty) (S : SchemaMut)
-    (h : schemaMut P hash fuel root = some S) (hW : NamesWf P hash) : (definedNames S).Nodup :=
-  definedNames_nodup hW.toStructWf (nameInj_of_textWf hW.toTextWf) h
+    (h : schemaMut P hash fuel root = some S)
+    (hW : NamesWfOn P hash (genericRecordKeys P hash fuel root)) : (definedNames S).Nodup :=
+  definedNames_nodup_on hW.toStructWf
+    (nameInjOn_of_textWfOn hW.toTextWfOn (fun _ hk hg => List.mem_filter.2 ⟨hk, hg⟩)) h
 
 /-- The same with the conditions on the declared names replaced by their consequence: the
-    assignment of names to origins (`Named`) is injective. -/
+    assignment of names to origins (`Named`) is injective on the origins whose owner is a lookup
+    key the build registers (`builtKeys P hash fuel root`, a computable list). -/
 theorem C20_names_distinct_of_nameInj (P : Prog) (hash : Key → String) (fuel : Nat) (root : Ty)
     (S : SchemaMut) (h : schemaMut P hash fuel root = some S) (hW : StructWf P)
+    (hI : NameInjOn P hash (fun k => k ∈ builtKeys P hash fuel root)) : (definedNames S).Nodup :=
+  definedNames_nodup_on hW hI h
+
+/-- Corollary, the earlier global statement: `hash` injective and dot-free on all keys (met by
+    `hashDemo`, not by a hash with finitely many values). -/
+theorem C20_names_distinct_global (P : Prog) (hash : Key → String) (fuel : Nat) (root : Ty)
+    (S : SchemaMut) (h : schemaMut P hash fuel root = some S) (hW : NamesWf P hash) :
+    (definedNames S).Nodup :=
+  C20_names_distinct P hash fuel root S h (hW.on _)
+
+/-- Corollary, the earlier global statement: the name assignment injective on all origins. -/
+theorem C20_names_distinct_of_nameInj_global (P : Prog) (hash : Key → String) (fuel : Nat) (root : Ty)
+    (S : SchemaMut) (h : schemaMut P hash fuel root = some S) (hW : StructWf P)
     (hI : NameInj P hash) : (definedNames S).Nodup :=
-  definedNames_nodup hW hI h
+  C20_names_distinct_of_nameInj P hash fuel root S h hW (hI.on _)
 
 /-- Bounded form of the quantifier over declarations (makes the fields of `NamesWf` decidable). -/
 theorem prog_forall_iff {P : Prog} {Q : Nat → Decl → Prop} :
@@ -333,6 +375,35 @@ example : NamesWf progDemo hashDemo ∧
 example : ∃ S, schemaMut progDemo hashDemo 30 (.named 3 []) = some S ∧ (definedNames S).Nodup := by
   cases h : schemaMut progDemo hashDemo 30 (.named 3 []) with
   | none => exact absurd h (by decide +kernel)
-  | some S => exact ⟨S, rfl, C20_names_distinct _ _ _ _ S h progDemo_wf⟩
+  | some S => exact ⟨S, rfl, C20_names_distinct _ _ _ _ S h (progDemo_wf.on _)⟩
+
+/-- The generic-record keys that build registers: the two instantiations of `T0`. -/
+example : genericRecordKeys progDemo hashDemo 30 (.named 3 []) =
+    [[.generic 0 2, .string, .byteArray 4], [.generic 0 2, .int, .byteArray 4]] := by decide +kernel
+
+/-- … and the hypothesis of `C20_names_distinct` itself, by evaluation: a hash that is constant
+    outside those two keys (nowhere near injective) satisfies it. -/
+def hashTwo (k : Key) : String :=
+  if k = [.generic 0 2, .int, .byteArray 4] then "i" else
+  if k = [.generic 0 2, .string, .byteArray 4] then "s" else "other"
+
+theorem progDemo_wfOn_hashTwo :
+    NamesWfOn progDemo hashTwo (genericRecordKeys progDemo hashTwo 30 (.named 3 [])) where
+  newtype_nongeneric := by rw [prog_forall_iff]; decide
+  generic_union_safe := by rw [prog_forall_iff]; decide
+  logical_dupSafe := by rw [prog_forall_iff]; decide
+  field_names_nodup := by rw [prog_forall_iff]; decide
+  variant_idents_nodup := by rw [prog_forall_iff]; decide
+  start_ok := by rw [prog_forall_iff]; decide
+  distinct := by simp only [prog_forall_iff]; decide
+  no_u8_array := by rw [prog_forall_iff]; decide
+  generic_prefix_free := by simp only [prog_forall_iff]; decide
+  hash_inj := by decide +kernel
+  hash_nodot := by decide +kernel
+
+example : ∃ S, schemaMut progDemo hashTwo 30 (.named 3 []) = some S ∧ (definedNames S).Nodup := by
+  cases h : schemaMut progDemo hashTwo 30 (.named 3 []) with
+  | none => exact absurd h (by decide +kernel)
+  | some S => exact ⟨S, rfl, C20_names_distinct _ _ _ _ S h progDemo_wfOn_hashTwo⟩
 
 end Avro.Theorems
